@@ -48,6 +48,7 @@ type execResult struct {
 	unsyncedAtK      []string // sstables whose directory entry was not yet synced at the crash
 	cands, candsHeld int64    // MANIFEST syncs observed while an sstable's directory entry was unsynced
 	keep, drop       *vfs.MemFS
+	torn             *tornWrite // operation k was a write: what it wrote where
 	cloneErr         error
 	startedAtK       int
 	ackedAtK         int
@@ -202,6 +203,7 @@ func execHistory(r *lib.Run, h *history, k int64, probeCand int64) (res execResu
 	res.unsyncedAtK = cfs.unsyncedAtK
 	res.firedAt = cfs.firedAt
 	res.keep, res.cloneErr = cfs.keep, cfs.cloneErr
+	res.torn = cfs.torn
 	res.startedAtK, res.ackedAtK = int(cfs.startedAtK), int(cfs.ackedAtK)
 	cfs.mem.ResetToSyncedState()
 	cfs.mem.SetIgnoreSyncs(false)
@@ -265,7 +267,7 @@ func checkCrashImages(r *lib.Run, h *history, res execResult, prefix string, wit
 	jobs := []job{{mk("keep"), res.keep}, {mk("drop"), res.drop}}
 	if withMix {
 		rng := r.RNG(fmt.Sprintf("mix-%s%s-%d", prefix, h.Stream, h.Idx), int(k))
-		mix, rolled, err := mixImage(res.keep, res.drop, dbDir, func() bool { return rng.Intn(2) == 0 })
+		mix, rolled, err := mixImage(res.keep, res.drop, dbDir, func(string) bool { return rng.Intn(2) == 0 })
 		if err != nil {
 			r.Inconclusive("history %d k=%d: mixed image: %v", h.Idx, k, err)
 		} else {
@@ -277,12 +279,29 @@ func checkCrashImages(r *lib.Run, h *history, res execResult, prefix string, wit
 			jobs = append(jobs, job{im, mix})
 		}
 	}
+	// torn-write variant: untouched copies of the keep and drop images, taken before anything is reopened
+	var keep0, drop0 *vfs.MemFS
+	doTorn := prefix == "" && tornWanted(r, res.torn)
+	if doTorn {
+		var err error
+		if keep0, err = cloneMem(res.keep); err == nil {
+			drop0, err = cloneMem(res.drop)
+		}
+		if err != nil {
+			r.Inconclusive("history %d k=%d: copy for the torn-write images: %v", h.Idx, k, err)
+			doTorn = false
+		}
+		jobs[0].im.wantFP = true
+	}
 	items := make([]int, len(jobs))
 	for i, j := range jobs {
 		cache := pebble.NewCache(16 << 20)
 		fs := j.fs
 		items[i] = checkImage(r, j.im, func() (*pebble.DB, error) { return storeutil.OpenFS(fs, dbDir, cache) }, r.RNG(fmt.Sprintf("further-%s%s-%d-%d", prefix, h.Stream, h.Idx, i), int(k)))
 		cache.Unref()
+	}
+	if doTorn {
+		checkTornImages(r, h, res, mk, keep0, drop0, jobs[0].im.fp)
 	}
 	// how much the variants really differ (coverage only)
 	if prefix == "" && items[0] >= 0 && items[1] >= 0 {
